@@ -12,7 +12,8 @@ import StraxModel.Model.Chunk
                   kwargs[data_kind] = Chunk.concatenate([cached_input[data_kind], chunk])
           ends = [c.end for c in kwargs.values()]
           if not len(set(ends)) == 1: raise RuntimeError
-          window = _get_window_size()          # tuple form: ValueError if an element is negative
+          window = _get_window_size()          # `windowOf`: number -> (w, w); list / tuple of two -> ValueError
+                                               # if an element is negative; anything else -> ValueError
           invalid_beyond = int(end - 2 * window[1] - 1)
           result = super().do_compute(**kwargs)                        -- `baseCompute`
           result[dt] = result[dt].split(sent_until, allow_early_split=False)[1]   -- `dropSent`
@@ -78,6 +79,10 @@ structure Spec where
   /-- `compute(**{kind: rows})`: for every provided data type the rows it returns (a data type
   that is missing from the answer is a `KeyError` in `_fix_output`) -/
   compute : Dict (List Row) → Dict (List Row)
+  /-- `_get_window_size`: the declared window had a legal form (number, or list / tuple of two) -/
+  declOK : Bool := true
+  /-- `_get_window_size`: the two-element form rejects negative elements, the scalar form does not -/
+  signCheck : Bool := true
   strict : Bool                             -- `save_when > SaveWhen.EXPLICIT`
   runId : String
   target : Nat
@@ -216,7 +221,7 @@ def doCompute (P : Spec) (st : State) (kwargs : Dict Chunk) : Except Err (Dict C
         | [] => .error .runtimeError
         | (_, c0) :: _ =>
           -- `_get_window_size`: "Window size elements must be non-negative"
-          if P.wl < 0 || P.wr < 0 then .error .valueError
+          if !P.declOK || (P.signCheck && (P.wl < 0 || P.wr < 0)) then .error .valueError
           else
           let invalidBeyond := c0.stop - 2 * P.wr - 1
           match baseCompute P kwargs with
@@ -357,6 +362,22 @@ def runOverlapMulti (fs : List (String × String × (List Row → List Row))) (w
     match c.runId with
     | none => .error .other
     | some rid => runDicts (specN fs w rid) c.kind chunks
+
+
+/-! ### `get_window_size()` as declared by the plugin, and `_get_window_size` -/
+
+/-- what `get_window_size()` returns -/
+inductive WindowDecl where
+  | scalar (w : Int)            -- `int` / `float`: the documented primary form
+  | pair (a b : Int)            -- tuple or list of two
+  | other                       -- anything else (three elements, `np.int64`, …)
+deriving Repr, DecidableEq
+
+/-- `_get_window_size`: (look-back, look-ahead, legal form, negative elements rejected) -/
+def windowOf : WindowDecl → Int × Int × Bool × Bool
+  | .scalar w => (w, w, true, false)
+  | .pair a b => (a, b, true, true)
+  | .other => (0, 0, false, true)
 
 /-! ### window-local computations used by the driver, the examples and the harness plugins -/
 
